@@ -1,4 +1,6 @@
 import RimuProofs.Lemmas.Fuel
+import RimuProofs.Lemmas.Groups
+import RimuProofs.Facts
 import RimuProofs.Props.C20
 
 /-!
@@ -94,5 +96,156 @@ example :
     (match (apiRender env 40 "/(a)|(b)/ = '[$2$9]'\n/x*/ = 'y'\n/(/ = 'z'\n\nab xx".toList { callback := true }).run Session.uninit with
      | .ok (html, s) => html == "<p>[][b] xx</p>".toList && s.log.length == 3
      | .error _ => false) = true := by decide +kernel
+
+
+/-! ## `match[i]` used as a string is never `None`
+
+The F2 class of crash (`AttributeError` / `TypeError` on a group that did not take part in the match).  For every
+place where the code reads a group as a string, every match of the pattern in the current source sets that group -
+for all texts.  The static analysis `Rx.setsGroup` is sound for every expression and input
+(`Rx.Matches.setsGroup`); the per-site facts are re-evaluated on the regenerated patterns (`Facts`, A5). -/
+
+/-- fixed patterns: class / style injection, macro names, invocations, formal parameters, template groups -/
+theorem static_site_groups_are_strings (p : Pat) (gs : List Nat) (hp : (p, gs) ∈ Facts.strSites) (m : Match) (hm : m.Of p)
+    (i : Nat) (hi : i ∈ gs) (site : String) (s : Session) : ∃ g, (m.str i site).run s = .ok (g, s) := by
+  have h := Facts.strSites_set
+  rw [List.all_eq_true] at h
+  have h2 := h _ hp
+  rw [List.all_eq_true] at h2
+  exact hm.str (h2 i hi) site s
+
+/-- line blocks: the groups each filter reads, for every line that the definition's pattern matches -/
+theorem line_block_groups_are_strings (d : LineDef) (hd : d ∈ Gen.lineDefs) (line : Str) (mt : Match)
+    (h : d.pat.search line = some mt) (i : Nat) (hi : i ∈ Facts.lineFilterGroups d.filter) (site : String) (s : Session) :
+    ∃ g, (mt.str i site).run s = .ok (g, s) := by
+  have h1 := Facts.lineDefs_set
+  rw [List.all_eq_true] at h1
+  have h2 := h1 d hd
+  rw [List.all_eq_true] at h2
+  exact (Pat.search_of (Nat.zero_le _) h).str (h2 i hi) site s
+
+/-- delimited blocks: the delimiter and class-name groups of the opening line -/
+theorem block_open_groups_are_strings (d : BlockDef) (hd : d ∈ Gen.blockDefaultDefs) (line : Str) (mt : Match)
+    (h : d.openMatch.search line = some mt) (i : Nat) (hi : i ∈ Facts.blockOpenGroups d) (site : String) (s : Session) :
+    ∃ g, (mt.str i site).run s = .ok (g, s) := by
+  have h1 := Facts.blockDefs_set
+  rw [List.all_eq_true] at h1
+  have h2 := h1 d hd
+  simp only [Bool.and_eq_true] at h2
+  have h3 := h2.1
+  rw [List.all_eq_true] at h3
+  exact (Pat.search_of (Nat.zero_le _) h).str (h3 i hi) site s
+
+/-- ... and the text before the closing delimiter that `readTo` keeps (closing patterns that have a group) -/
+theorem block_close_group_is_string (d : BlockDef) (hd : d ∈ Gen.blockDefaultDefs) (hg : d.closeMatch.ngroups > 0)
+    (line : Str) (mt : Match) (h : d.closeMatch.search line = some mt) (site : String) (s : Session) :
+    ∃ g, (mt.str 1 site).run s = .ok (g, s) := by
+  have h1 := Facts.blockDefs_set
+  rw [List.all_eq_true] at h1
+  have h2 := h1 d hd
+  simp only [Bool.and_eq_true, Bool.or_eq_true, decide_eq_true_eq] at h2
+  rcases h2.2 with h0 | hs
+  · omega
+  · exact (Pat.search_of (Nat.zero_le _) h).str hs site s
+
+/-- definition lists: the term -/
+theorem list_term_is_string (d : ListDef) (hd : d ∈ Gen.listDefs) (ht : d.termOpenTag ≠ []) (line : Str) (mt : Match)
+    (h : d.pat.search line = some mt) (site : String) (s : Session) : ∃ g, (mt.str 1 site).run s = .ok (g, s) := by
+  have h1 := Facts.listDefs_set
+  rw [List.all_eq_true] at h1
+  have h2 := h1 d hd
+  simp only [Bool.or_eq_true, beq_iff_eq] at h2
+  rcases h2 with h0 | hs
+  · exact absurd h0 ht
+  · exact (Pat.search_of (Nat.zero_le _) h).str hs site s
+
+/-- the HTML-tag and entity filters of the default replacement definitions -/
+theorem replacement_filter_group_is_string (d : ReplDef) (hd : d ∈ Gen.replDefaultDefs)
+    (hf : d.filter = .html ∨ d.filter = .entity) (m : Match) (hm : m.Of d.pat) (site : String) (s : Session) :
+    ∃ g, (m.str 1 site).run s = .ok (g, s) := by
+  have h1 := Facts.replDefaults_set
+  rw [List.all_eq_true] at h1
+  have h2 := h1 d hd
+  simp only [Bool.or_eq_true, Bool.and_eq_true, bne_iff_ne, ne_eq] at h2
+  rcases h2 with h0 | hs
+  · rcases hf with hf | hf
+    · exact absurd hf h0.1
+    · exact absurd hf h0.2
+  · exact hm.str hs site s
+
+/-- quotes, **for every quote table** a session can hold: the delimiter and the quoted text -/
+theorem quote_groups_are_strings (defs : List QuoteDef) (text : Str) (start : Nat) (hs : start ≤ text.length) (mt : Match)
+    (h : (quotesRe defs).search text start = some mt) (site : String) (s : Session) :
+    (∃ q, (mt.str 1 site).run s = .ok (q, s)) ∧ (∃ t, (mt.str 2 site).run s = .ok (t, s)) :=
+  ⟨(Pat.search_of hs h).str (Facts.quotesRe_set defs).1 site s, (Pat.search_of hs h).str (Facts.quotesRe_set defs).2 site s⟩
+
+/-- a delimited-block definition value `'<open>|<close> options'`: when the open tag is there so is the close tag
+    (the `None` that `setDefinition` would otherwise store as a tag) -/
+theorem block_definition_tags_come_together (value : Str) (mt : Match)
+    (h : Gen.P.delimitedblocks_setDefinition_0.search value = some mt) (o : Str)
+    (h1 : mt.res.group mt.inp 1 = some o) : ∃ c, mt.res.group mt.inp 2 = some c := by
+  obtain ⟨hn, hM⟩ := Pat.search_of (Nat.zero_le _) h
+  have hset1 : Rx.IsSet mt.res.caps 1 := by
+    unfold Rx.MatchRes.group Rx.MatchRes.span at h1
+    simp only [Nat.succ_ne_zero, if_false] at h1
+    split at h1
+    · next a b hab => exact ⟨(a, b), hab⟩
+    · cases h1
+  have hinit : ¬ Rx.IsSet (List.replicate (Gen.P.delimitedblocks_setDefinition_0.ngroups + 1) (none : Option (Nat × Nat))) 1 := by
+    rintro ⟨v, hv⟩
+    simp [List.getD_eq_getElem?_getD, List.getElem?_replicate] at hv
+    split at hv <;> simp at hv
+  have := hM.coSets Facts.blockdef_tags_together (by simp; decide) (fun h => absurd h hinit) hset1
+  exact Rx.group_of_isSet this
+
+
+/-- `Safe E (m.str i)` for every footprint `E`: reading a group that is set cannot raise -/
+theorem safe_str {E : PyErr → Prop} {m : Match} {p : Pat} {i : Nat} (h : m.Of p) (hp : p.Sets i = true) (site : String) :
+    Safe E (m.str i site) := by
+  intro s e he
+  obtain ⟨g, hg⟩ := h.str hp site s
+  rw [hg] at he
+  cases he
+
+/-- **Attribute injection never raises**, whatever is pending and whatever the tag looks like: the two places where
+    it reads match groups (an existing `class="…"` / `style="…"` in the tag) are covered by the facts above. -/
+theorem injectHtmlAttributes_never_raises (tag : Str) (consume : Bool) : Safe (fun _ => False) (injectHtmlAttributes tag consume) := by
+  have hc : ∀ classes t, Safe (fun _ => False) (injectClasses classes t) := by
+    intro classes t
+    unfold injectClasses
+    split
+    · exact Safe.pure _
+    · split
+      · next mt hm =>
+        have hof := Pat.search_of (Nat.zero_le _) hm
+        have h1 := safe_str (E := fun _ => False) hof (by decide +kernel : Gen.P.blockattributes_injectHtmlAttributes_0.Sets 1 = true) "group"
+        have h2 := safe_str (E := fun _ => False) hof (by decide +kernel : Gen.P.blockattributes_injectHtmlAttributes_0.Sets 2 = true) "group"
+        safe_go
+      · exact Safe.pure _
+  have hcss : ∀ css r a, Safe (fun _ => False) (injectCss css r a) := by
+    intro css r a
+    unfold injectCss
+    split
+    · exact Safe.pure _
+    · split
+      · next mt hm =>
+        have hof := Pat.search_of (Nat.zero_le _) hm
+        have h1 := safe_str (E := fun _ => False) hof (by decide +kernel : Gen.P.blockattributes_injectHtmlAttributes_2.Sets 1 = true) "group"
+        have h2 := safe_str (E := fun _ => False) hof (by decide +kernel : Gen.P.blockattributes_injectHtmlAttributes_2.Sets 2 = true) "group"
+        safe_go
+      · exact Safe.pure _
+  have hec : ∀ msg, Safe (fun _ => False) (errorCallback msg) := by
+    intro msg; unfold errorCallback; safe_go
+  have hid : ∀ sid ids r a, Safe (fun _ => False) (injectId sid ids r a) := by
+    intro sid ids r a
+    unfold injectId
+    safe_go
+  unfold injectHtmlAttributes
+  safe_go
+
+/-- instance (kernel evaluation): a header line sets both groups the header filter reads -/
+example : (match Gen.P.lineblocks_defs_6.search "## Title".toList with
+    | some mt => mt.res.group mt.inp 1 == some "##".toList && mt.res.group mt.inp 2 == some "Title".toList
+    | none => false) = true := by decide +kernel
 
 end Props.C01
